@@ -90,7 +90,10 @@ def explore(fn, max_paths=3000, timeout_ms=5000):
 def same(a, b):
     """are two scales equal on this path? (decided by the solver through the path manager; forks if open)"""
     r = a == b
-    return r if isinstance(r, bool) else bool(r)
+    if isinstance(r, bool):
+        return r
+    R.TOUCH["sym"] = True
+    return bool(r)
 
 
 # ---------------------------------------------------------------------------
@@ -390,8 +393,9 @@ def case_solve(log, nf0, targets, shape=(2, 1, 2, 1), ratios="sym", coincide=(),
         eko = w.Factory.built[0]
 
         def dec(goal, what, key):
+            sym = R.touched()
             v = prove_formula(goal, what + " " + tag)
-            decide(v, key, (MOD, "replay_solve", kw), sampler=lambda rng: _sampler(rng, len(targets)))
+            decide(v, key, (MOD, "replay_solve", kw), sampler=lambda rng: _sampler(rng, len(targets)), nontrivial=sym)
 
         # ---- independent description of what is needed -------------------------------------------
         needed = []  # oracle elements over all targets
@@ -485,8 +489,9 @@ def case_join(log, n, shape=(2, 1, 2, 1), none_at=None):
             val = dot4_plain(val, op.operator)
 
         def dec(goal, what, key):
+            sym = R.touched()
             v = prove_formula(goal, what + " " + tag)
-            decide(v, key, (MOD, "replay_join", kw), sampler=lambda rng: {"seed": rng.randint(0, 10**6)})
+            decide(v, key, (MOD, "replay_join", kw), sampler=lambda rng: {"seed": rng.randint(0, 10**6)}, nontrivial=sym)
 
         dec(tensors_equal(got.operator, val), "join == product with later elements on the left", "operators.join:product")
         dec(tensors_equal(got.error, err), "error == |A| dB + dA |B| accumulated along the join (None if an input has none)", "operators._dotop:error")
@@ -589,7 +594,7 @@ def replay_solve(point, nf0, targets, coincide=()):
     oc.init = (lin["mu0"], nf0)
     oc.mugrid = [(lin["t%d" % i], nf) for i, nf in enumerate(targets)]
     nfl = len(br.flavor_basis_pids)
-    shape = (2, nfl, 2, nfl)
+    shape = (nfl, 2, nfl, 2)  # (flavour, x, flavour, x) as the real parts
     calls = []
 
     def fake_evolve(eko, recipe):
@@ -685,11 +690,13 @@ def main():
     import eko.runner.managed  # noqa: F401  (imported once; forked workers rebind globals privately)
 
     chk = H.Check("C02")
-    chk.level = "model_checking"
+    chk.explanation = ("Decided: for every target the stored operator is the product, later steps on the left, of the stored evolution and matching parts along its "
+                       "flavour-number path (upward, downward, mixed; targets sharing parts), each needed part is computed and stored exactly once, and the error rule of the join. "
+                       "Not decided: the numerical content of the parts and the byte-level archive round trip (both replaced by contract stubs).")
     chk.bounds = [
         "nf0 in {3,4,5,6}; 1 target: all nff in {3,4,5,6,None} (20 configurations, paths of 1-7 elements, 0-3 matchings, upward and downward); "
         "2 targets: %s; 3 targets: %s" % ("all 64 explicit nf pairs per nf0 in {3,4,5,6} plus default-nf pairs" if thorough else "17 selected configurations sharing parts",
-                                          "12 selected configurations" if thorough else "2 selected configurations"),
+                                          "12 selected configurations" if thorough else "1 selected configuration"),
         "masses, matching ratios (walls strictly ordered w1 < w2 < w3), initial scale and all target scales symbolic positive reals; "
         "coincidences target = wall / target = target / target = initial scale are reached by forking on header equality",
         "part tensors of shape %s with independent symbolic entries (matrix products do not commute)" % ("(2,1,2,1), (1,2,1,2) and (2,2,2,2)" if thorough else "(2,1,2,1) and (1,2,1,2)"),
@@ -710,10 +717,10 @@ def main():
         "mu20, init, evolgrid, configs.evolution_method",
     ]
     chk.assumptions = ["floats are read as exact reals", "matching scale of quark q is (matching_ratio_q * mass_q)^2 (documented meaning of the cards)"]
-    three = [(5, (3, 4, 4)), (3, (6, 5, 6))]
+    three = [(5, (3, 4, 4))]
     # (long cases are scheduled first)
     if thorough:
-        three += [(4, (5, 5, 6)), (3, (3, 4, 5)), (6, (5, 4, 3)), (4, (3, 6, 4)), (5, (5, 5, 5)), (4, (None, 5, None)), (6, (6, 3, 3)), (3, (4, 4, 6)), (5, (6, 6, 4)), (4, (4, 5, 3))]
+        three += [(3, (6, 5, 6)), (4, (5, 5, 6)), (3, (3, 4, 5)), (6, (5, 4, 3)), (4, (3, 6, 4)), (5, (5, 5, 5)), (4, (None, 5, None)), (6, (6, 3, 3)), (3, (4, 4, 6)), (5, (6, 6, 4)), (4, (4, 5, 3))]
     for nf0, tg in three:
         chk.case("solve.3.%s-%s" % (nf0, ",".join(map(str, tg))), case_solve, nf0=nf0, targets=list(tg), ratios="fixed")
     two = [(4, (None, None)), (6, (None, 3)), (5, (4, None)), (3, (4, 5)), (3, (5, 5)), (3, (6, 4)), (4, (4, 4)), (4, (5, 3)), (4, (6, 6)), (5, (3, 3)), (5, (3, 4)),
